@@ -10,7 +10,8 @@ PROP = {
   "saml2_tophat.response:AuthnResponse._assertion",
   "saml2_tophat.response:AuthnResponse.get_subject",
   "saml2_tophat.response:AuthnResponse.verify_recipient",
-  "saml2_tophat.config:Config.endpoint"
+  "saml2_tophat.config:Config.endpoint",
+  "saml2_tophat.response:AuthnResponse.verify_attesting_entity"
  ],
  "level": "proof",
  "id": "C05"
